@@ -237,7 +237,8 @@ def method_effects(F, P, fname):
     out = set()
     for p in tables.normal_paths(S):
         X = tables.SymExec(S, p.path)
-        lits = sorted(set(_norm(tables.fmt_atom(a)) + "=" + str(t) for a, t in X.literals))
+        # conditions on `size` (PossibleCycles only, e.g. a debug assertion `size == 0` on the empty path) are not link-role conditions, like the stores to it below
+        lits = sorted(set(_norm(tables.fmt_atom(a)) + "=" + str(t) for a, t in X.literals if "self.size" not in _norm(tables.fmt_atom(a))))
         stores = []
         for (tgt, val, n) in X.stores:
             if any("debug_assert" in e_ for e_ in (n.term.get("exp") or [])):
